@@ -333,7 +333,7 @@ class C04(PropertyCheck):
                     "signed} on two fixed masks",
     }
     # loop ties (DESIGN §12): regenerated from the source on every run, tie theorems proved for all sizes
-    loop_tie_modules = ["LoopsNormalEq"]
+    loop_tie_modules = ["LoopsNormalEq", "LoopsNormalEq2"]
     modelled_functions = [
         "autoarray/operators/convolver.py:Convolver.__init__",
         "autoarray/operators/convolver.py:Convolver.frame_at_coordinates_jit",
